@@ -73,7 +73,7 @@ func main() {
 		tasks = append(tasks, task{fmt.Sprintf("hmac/%d", alg), func(i int) []byte {
 			t := must(m.MACCreate(in(i)))
 			if m.MACVerify(in(i), t) != nil {
-				return []byte("verify-failed")
+				return []byte("FAIL: verify-failed")
 			}
 			return t
 		}})
@@ -83,7 +83,7 @@ func main() {
 		tasks = append(tasks, task{fmt.Sprintf("aesmac/%d", alg), func(i int) []byte {
 			t := must(m.MACCreate(in(i)))
 			if m.MACVerify(in(i), t) != nil {
-				return []byte("verify-failed")
+				return []byte("FAIL: verify-failed")
 			}
 			return t
 		}})
@@ -96,7 +96,7 @@ func main() {
 			ct := must(e.Encrypt(nn, in(i), in(i+1)))
 			pt, err := e.Decrypt(nn, ct, in(i+1))
 			if err != nil || !bytes.Equal(pt, in(i)) {
-				return []byte("decrypt-failed")
+				return []byte("FAIL: decrypt-failed")
 			}
 			return ct
 		}})
@@ -116,8 +116,13 @@ func main() {
 		v := must(ed25519.NewVerifier(k))
 		tasks = append(tasks, task{"ed25519", func(i int) []byte {
 			sig := must(s.Sign(in(i)))
+			if i%3 == 0 { // a refused input first (wrong length, altered): the shared object goes on working afterwards
+				if v.Verify(in(i), sig[:len(sig)-1]) == nil || v.Verify(in(i), nil) == nil {
+					return []byte("FAIL: wrong-length-accepted")
+				}
+			}
 			if v.Verify(in(i), sig) != nil {
-				return []byte("verify-failed")
+				return []byte("FAIL: verify-failed")
 			}
 			return sig
 		}})
@@ -128,8 +133,15 @@ func main() {
 		v := must(ecdsa.NewVerifier(k))
 		tasks = append(tasks, task{fmt.Sprintf("ecdsa/%d", alg), func(i int) []byte {
 			sig := must(s.Sign(in(i)))
+			if i%3 == 0 { // a refused input first (wrong length, empty, altered): the shared object goes on working afterwards
+				bad := append([]byte{}, sig...)
+				bad[len(bad)-1] ^= 1
+				if v.Verify(in(i), sig[:len(sig)-1]) == nil || v.Verify(in(i), nil) == nil || v.Verify(in(i), append(bad, 0)) == nil || v.Verify(in(i), bad) == nil {
+					return []byte("FAIL: bad-signature-accepted")
+				}
+			}
 			if v.Verify(in(i), sig) != nil {
-				return []byte("verify-failed")
+				return []byte("FAIL: verify-failed")
 			}
 			return []byte("verified")
 		}})
@@ -158,7 +170,7 @@ func main() {
 			v := must(ks.Verifier())
 			sig := must(s.Sign(in(i)))
 			if v.Verify(in(i), sig) != nil {
-				return []byte("verify-failed")
+				return []byte("FAIL: verify-failed")
 			}
 			return sig
 		}})
@@ -257,12 +269,12 @@ func main() {
 			v := must(ks[2].Verifier())
 			sig := must(s.Sign(in(i)))
 			if v.Verify(in(i), sig) != nil {
-				return []byte("verify-failed")
+				return []byte("FAIL: verify-failed")
 			}
 			s2 := must(ks[3].Signer())
 			v2 := must(ks[3].Verifier())
 			if v2.Verify(in(i), must(s2.Sign(in(i)))) != nil {
-				return []byte("verify-failed")
+				return []byte("FAIL: verify-failed")
 			}
 			return append(append(t, ct...), sig...)
 		}
@@ -322,11 +334,11 @@ func main() {
 				data := must((&cose.Encrypt0Message[[]byte]{Payload: in(i)}).EncryptAndEncode(e, nil))
 				m, err := cose.DecryptEncrypt0Message[[]byte](e, data, nil)
 				if err != nil || !bytes.Equal(m.Payload, in(i)) {
-					return []byte("decrypt-failed")
+					return []byte("FAIL: decrypt-failed")
 				}
 				iv, _ := m.Unprotected.GetBytes(iana.HeaderParameterIV)
 				if len(iv) != e.NonceSize() || seen[string(iv)] {
-					return []byte("nonce-repeated-or-missized")
+					return []byte("FAIL: nonce-repeated-or-missized")
 				}
 				seen[string(iv)] = true
 			}
@@ -347,7 +359,7 @@ func main() {
 			data := must((&cose.Mac0Message[[]byte]{Payload: in(i)}).ComputeAndEncode(mc, in(i+1)))
 			m, err := cose.VerifyMac0Message[[]byte](mc, data, in(i+1))
 			if err != nil || !bytes.Equal(m.Payload, in(i)) {
-				return []byte("verify-failed")
+				return []byte("FAIL: verify-failed")
 			}
 			return data
 		}})
@@ -358,7 +370,7 @@ func main() {
 		tasks = append(tasks, task{"Sign1/shared-signer", func(i int) []byte {
 			data := must((&cose.Sign1Message[[]byte]{Payload: in(i)}).SignAndEncode(sg, nil))
 			if _, err := cose.VerifySign1Message[[]byte](vf, data, nil); err != nil {
-				return []byte("verify-failed")
+				return []byte("FAIL: verify-failed")
 			}
 			return data
 		}})
@@ -383,7 +395,7 @@ func main() {
 		tasks = append(tasks, task{fmt.Sprintf("decrypt-shared-input/%d", alg), func(i int) []byte {
 			pt, err := e.Decrypt(nonce, cts[i%len(cts)], nil)
 			if err != nil || !bytes.Equal(pt, in(i)) {
-				return []byte("decrypt-failed")
+				return []byte("FAIL: decrypt-failed")
 			}
 			return []byte("ok")
 		}})
@@ -393,11 +405,11 @@ func main() {
 		a := key.GetRandomBytes(uint16(1 + i%40))
 		b := key.GetRandomBytes(uint16(1 + i%40))
 		if len(a) != 1+i%40 || (len(a) >= 8 && bytes.Equal(a, b)) {
-			return []byte("random-bytes-wrong")
+			return []byte("FAIL: random-bytes-wrong")
 		}
 		k1, k2 := must(aesgcm.GenerateKey(iana.AlgorithmA128GCM)), must(hmac.GenerateKey(iana.AlgorithmHMAC_256_64))
 		if len(k1.Kid()) != 20 || len(k2.Kid()) != 20 {
-			return []byte("generated-key-wrong")
+			return []byte("FAIL: generated-key-wrong")
 		}
 		return []byte("ok")
 	}})
@@ -467,6 +479,54 @@ func main() {
 		}})
 	}
 
+	// different keys under one kid (and without kid), their implementations obtained by all goroutines at overlapping
+	// times: each gets the object of the key it asked with
+	for _, alg := range []int{iana.AlgorithmES256, iana.AlgorithmES384, iana.AlgorithmEdDSA} {
+		for _, withKid := range []bool{true, false} {
+			var ks []key.Key
+			var xs [][]byte
+			for j := 0; j < 8; j++ {
+				var k key.Key
+				if alg == iana.AlgorithmEdDSA {
+					k = must(ed25519.GenerateKey())
+				} else {
+					k = must(ecdsa.GenerateKey(alg))
+				}
+				if withKid {
+					k.SetKid([]byte("one kid for all"))
+				} else {
+					delete(k, iana.KeyParameterKid)
+				}
+				ks = append(ks, k)
+				var pub key.Key
+				if alg == iana.AlgorithmEdDSA {
+					pub = must(ed25519.ToPublicKey(k))
+				} else {
+					pub = must(ecdsa.ToPublicKey(k))
+				}
+				x, _ := pub.GetBytes(iana.OKPKeyParameterX)
+				xs = append(xs, x)
+			}
+			tasks = append(tasks, task{fmt.Sprintf("Factories/same-kid-%v/%d", withKid, alg), func(i int) []byte {
+				k := ks[i%len(ks)]
+				want := xs[i%len(ks)]
+				for rep := 0; rep < 8; rep++ { // many look-ups in a row, so that look-ups of different goroutines overlap
+					v := must(k.Verifier())
+					if got, _ := v.Key().GetBytes(iana.OKPKeyParameterX); !bytes.Equal(got, want) {
+						return []byte(fmt.Sprintf("FAIL: verifier of another key for key %d", i%len(ks)))
+					}
+					must(k.Signer())
+				}
+				sg, v := must(k.Signer()), must(k.Verifier())
+				sig := must(sg.Sign(in(i)))
+				if v.Verify(in(i), sig) != nil {
+					return []byte(fmt.Sprintf("FAIL: own signature refused for key %d", i%len(ks)))
+				}
+				return []byte("ok")
+			}})
+		}
+	}
+
 	// look-ups in lists longer than any small-list fast path (24 keys), by all goroutines at once: Verifiers, Signers and
 	// KeySet are plain slices shared by reference; a look-up reads them and returns the entry for exactly that kid
 	{
@@ -488,17 +548,17 @@ func main() {
 			idx := (i*5 + 7) % 24
 			v, sg, k := vs.Lookup(kid(idx)), ss.Lookup(kid(idx)), ks.Lookup(kid(idx))
 			if v == nil || sg == nil || k == nil {
-				return []byte(fmt.Sprintf("nil for kid %d", idx))
+				return []byte(fmt.Sprintf("FAIL: nil for kid %d", idx))
 			}
 			if v.Verify(msg, sigs[idx]) != nil || !bytes.Equal(sg.Key().Kid(), kid(idx)) || !bytes.Equal(k.Kid(), kid(idx)) {
-				return []byte(fmt.Sprintf("another key's entry for kid %d", idx))
+				return []byte(fmt.Sprintf("FAIL: another key's entry for kid %d", idx))
 			}
 			if vs.Lookup([]byte{0xee}) != nil || ss.Lookup([]byte{0xee}) != nil || ks.Lookup([]byte{0xee}) != nil {
-				return []byte("entry for an unknown kid")
+				return []byte("FAIL: entry for an unknown kid")
 			}
 			if i%4 == 0 { // a COSE_Sign by the last eight keys, verified against the whole list
 				if _, err := cose.VerifySignMessage[[]byte](vs, signed, nil); err != nil {
-					return []byte("sign-verify: " + err.Error())
+					return []byte("FAIL: sign-verify: " + err.Error())
 				}
 			}
 			return []byte("ok")
@@ -537,12 +597,25 @@ func main() {
 			}(g)
 		}
 		close(start)
-		wg.Wait()
+		done := make(chan struct{})
+		go func() { wg.Wait(); close(done) }()
+		select {
+		case <-done:
+		case <-time.After(2 * time.Minute):
+			fmt.Printf("MISMATCH task=%s BLOCKED: the goroutines did not return within 2 minutes (a call on the shared object never returns)\n", tasks[t].name)
+			os.Exit(1)
+		}
 	}
 	bad := 0
 	for t := range tasks {
 		for j := 0; j < *N; j++ {
 			want := tasks[t].run(j)
+			if bytes.HasPrefix(want, []byte("FAIL: ")) { // a self-check of the task fails even without concurrency
+				bad++
+				if bad < 5 {
+					fmt.Printf("MISMATCH task=%s input=%d sequential run: %s\n", tasks[t].name, j, want)
+				}
+			}
 			for g := 0; g < *G; g++ {
 				if !bytes.Equal(got[t][g][j], want) {
 					bad++
